@@ -90,6 +90,8 @@ def run_case(spec, ctx):
     if not ok:
         ctx.violation('sample.fit', 'C01:fit-' + exc_mech(exc), dict(exc_detail(exc), **where))
         return
+    okp, det = mv.prototype_options_kept(model)
+    ctx.check(okp, 'fit.prototype-options', 'C01:instance-prototype-options-lost', lambda: dict(where, **(det or {})))
     dfc = df.copy()
     dfc.columns = cols
     check_correlation(ctx, model, dfc, where, prop='C01')
